@@ -50,6 +50,8 @@ Diff(ln) ==
        \cup (IF ln.L.err = ln.R.err THEN {} ELSE {"err"})
        \cup (IF DbEq(ln.L.db, ln.R.db) THEN {} ELSE {"db"})
        \cup (IF UdbEq(ln.L.udb, ln.R.udb) THEN {} ELSE {"udb"})
+       \* the candidates a random choice (allocate) was made from
+       \cup (IF ln.L.cands = ln.R.cands THEN {} ELSE {"candidates"})
 
 PInit == pl = 1 /\ pres = <<>>
 PNext ==
